@@ -5,4 +5,6 @@
 //@include units/arrival_basic.rs
 //@include units/arrival_curve.rs
 //@include units/arrival_trace.rs
+//@include units/arrival_extrapolate.rs
+//@include units/arrival_cache.rs
 fn main() {}
